@@ -166,15 +166,16 @@ type Updater struct {
 // typed by Types (""=int64; "mixed" cycles int64, float64, string by i%3), y = i mod 7,
 // and a pad string of Pad bytes.
 type GenSpec struct {
-	First int    `json:"first"`
-	N     int    `json:"n"`
-	Pad   int    `json:"pad"`
-	Mul   int    `json:"mul"`
-	Add   int    `json:"add"`
-	Mod   int    `json:"mod"`
-	Types string `json:"types,omitempty"`
-	DupAt int    `json:"dupat,omitempty"` // position k > 0 whose _id repeats the one of position 0 (0 = none)
-	BadAt int    `json:"badat,omitempty"` // position k > 0 holding a malformed _id (0 = none)
+	First  int    `json:"first"`
+	N      int    `json:"n"`
+	Pad    int    `json:"pad"`
+	Mul    int    `json:"mul"`
+	Add    int    `json:"add"`
+	Mod    int    `json:"mod"`
+	Types  string `json:"types,omitempty"`
+	DupAt  int    `json:"dupat,omitempty"`  // position k > 0 whose _id repeats the one of position 0 (0 = none)
+	BadAt  int    `json:"badat,omitempty"`  // position k > 0 holding a malformed _id (0 = none)
+	Sparse int    `json:"sparse,omitempty"` // every Sparse-th document lacks the fields x and y (0 = none)
 }
 
 // Docs materialises the batch.
@@ -200,6 +201,10 @@ func (g *GenSpec) Docs(idOf func(int) string) []Doc {
 		d := Doc{"_id": idOf(i), "u": int64(i), "x": x, "y": int64(i % 7)}
 		if g.Pad > 0 {
 			d["pad"] = pad
+		}
+		if g.Sparse > 0 && i%g.Sparse == g.Sparse-1 {
+			delete(d, "x")
+			delete(d, "y")
 		}
 		if g.DupAt > 0 && k == g.DupAt {
 			d["_id"] = idOf(g.First)
